@@ -18,6 +18,11 @@ pub type BoxError = Box<dyn std::error::Error + Send + Sync>;
 /// several segments, so `chunk().len() < remaining()` -- `Entity::Data` may be any `Buf`.
 pub trait ChunkData: bytes::Buf + From<Vec<u8>> + From<&'static [u8]> + Send + Sync + 'static {
     fn from_content(v: Vec<u8>) -> Self;
+    /// A chunk that *claims* `claim` bytes without holding them (a virtual filler `Buf`).  Types that
+    /// materialise their bytes hand out a short honest chunk instead; only cases with `seg` use it.
+    fn from_virtual(claim: u64) -> Self {
+        Self::from_content(content(0, claim.min(16) as usize))
+    }
 }
 
 impl ChunkData for Bytes {
@@ -26,17 +31,24 @@ impl ChunkData for Bytes {
     }
 }
 
-pub struct SegData(std::collections::VecDeque<Bytes>);
+/// `.1`: bytes claimed beyond the real segments (zeros, never materialised as a whole)
+pub struct SegData(std::collections::VecDeque<Bytes>, usize);
+
+static ZEROS: [u8; 4096] = [0u8; 4096];
 
 impl bytes::Buf for SegData {
     fn remaining(&self) -> usize {
-        self.0.iter().map(|b| b.len()).sum()
+        self.0.iter().map(|b| b.len()).sum::<usize>().saturating_add(self.1)
     }
     fn chunk(&self) -> &[u8] {
-        self.0.iter().find(|b| !b.is_empty()).map(|b| &b[..]).unwrap_or(&[])
+        self.0.iter().find(|b| !b.is_empty()).map(|b| &b[..]).unwrap_or(&ZEROS[..self.1.min(ZEROS.len())])
     }
     fn advance(&mut self, mut cnt: usize) {
         while cnt > 0 {
+            if self.0.is_empty() && self.1 >= cnt {
+                self.1 -= cnt;
+                return;
+            }
             let Some(front) = self.0.front_mut() else { panic!("advance past end") };
             if front.len() <= cnt {
                 cnt -= front.len();
@@ -62,6 +74,9 @@ impl From<&'static [u8]> for SegData {
 }
 
 impl ChunkData for SegData {
+    fn from_virtual(claim: u64) -> Self {
+        SegData(std::collections::VecDeque::new(), claim.min(usize::MAX as u64) as usize)
+    }
     /// Splits the content into up to three segments (1 byte, half of the rest, the rest).
     fn from_content(v: Vec<u8>) -> Self {
         let b = Bytes::from(v);
@@ -77,7 +92,7 @@ impl ChunkData for SegData {
         } else {
             q.push_back(b);
         }
-        SegData(q)
+        SegData(q, 0)
     }
 }
 
@@ -275,7 +290,7 @@ impl<D: ChunkData> ScriptedStream<D> {
 
     fn kind_name(k: char) -> &'static str {
         match k {
-            'y' => "yield",
+            'y' | 'Y' => "yield",
             'p' => "pending",
             's' => "stall",
             'f' => "fail",
@@ -288,7 +303,7 @@ impl<D: ChunkData> ScriptedStream<D> {
             ("done".to_string(), 0)
         } else {
             let (k, n, _, _) = self.decide();
-            (Self::kind_name(k).to_string(), n)
+            (Self::kind_name(k).to_string(), n.min(1 << 30))
         };
         l.nexts.insert(self.call, nx);
     }
@@ -356,6 +371,13 @@ impl<D: ChunkData> Stream for ScriptedStream<D> {
                 ev(&mut l, "yield", n);
                 this.publish_next(&mut l);
                 Poll::Ready(Some(Ok(D::from_content(d))))
+            }
+            'Y' => {
+                // virtual chunk: claims n bytes (possibly > 2^63); logged capped at 2^30 (TLC integers)
+                this.pos = this.pos.wrapping_add(n);
+                ev(&mut l, "yield", n.min(1 << 30));
+                this.publish_next(&mut l);
+                Poll::Ready(Some(Ok(D::from_virtual(n))))
             }
             'p' => {
                 ev(&mut l, "pending", 0);
